@@ -1,6 +1,7 @@
 """C06 - streaming reductions are independent of gulp size and equal their definitions."""
 from __future__ import annotations
 
+import os
 import zlib
 
 import numpy as np
@@ -17,6 +18,7 @@ ID = "C06"
 GUARD_KERNELS = True
 NAMES = ["collapse", "bandpass", "read_chan", "dedisperse", "compute_stats", "compute_stats_basic"]
 SHRINK_LISTS = ("ops", "faults", "pre", ("files", "nsamps"))
+SHRINK_SIMPLE = {"earlier": None}
 SHRINK_MIN = {"nchans": 1, "nbits": 1, "gulp": 1}
 
 
@@ -92,12 +94,46 @@ def generate(rng, tier) -> dict:
             st2 = rng.randint(0, N - 1)
             ops[1].update({"start": st2, "nsamps": rng.choice([None, rng.randint(1, N - st2)])})
     pre = gen_pre(rng, N) if rng.random() < 0.3 else []
+    earlier = None
+    if rng.random() < 0.2:
+        # an EARLIER session in the same process: the same call on another file with the same band but another
+        # sampling time (or another channel count), through a reader that no longer exists
+        spec2 = {**{k: v for k, v in spec.items() if k != "big"}, "nsamps": [max(2, min(40, N))], "pad": [0], "vseed": rng.randrange(1 << 16)}
+        if rng.random() < 0.6:
+            spec2["tsamp"] = float(spec.get("tsamp", 0.001)) * 2
+        else:
+            others = [c for c in chans if c != nchans]
+            if others:
+                spec2["nchans"] = rng.choice(others)
+        earlier = {"files": spec2, "gulp": rng.randint(1, 20)}
     faults = []
     if rng.random() < 0.25:
         for _ in range(rng.choice([1, 1, 2])):
             faults.append({"kind": rng.choice(["R1", "R2"]), "op": rng.randrange(len(ops)), "call": rng.choice([0, 1, 1, 2, 3, 4]),
                            "arg": rng.choice([1, 3, rng.randint(1, 64)])})
-    return {"files": spec, "name": name, "params": params, "start": start, "nsamps": nsamps, "pre": pre, "ops": ops, "faults": faults}
+    return {"files": spec, "name": name, "params": params, "start": start, "nsamps": nsamps, "pre": pre, "earlier": earlier, "ops": ops, "faults": faults}
+
+
+def run_earlier_session(sc, ctx, sim) -> None:
+    """Context, not the call under test: its objects are gone before the scenario's reader exists."""
+    e = sc["earlier"]
+    d = os.path.join(ctx.root, "earlier")
+    os.makedirs(d, exist_ok=True)
+    fs0 = filgen.write_fileset(d, e["files"], stem="prev")
+    sim.begin_op(-2, budget=1000000)
+    try:
+        r0 = open_reader("C06", fs0.paths, allow_chdir=False)
+        p0 = dict(sc["params"])
+        if "ichan" in p0:
+            p0["ichan"] = min(p0["ichan"], e["files"]["nchans"] - 1)
+        call(sc["name"], r0, p0, e["gulp"], 0, None)
+        r0._file.close()
+        del r0
+    except Violation:
+        raise
+    except Exception as ex:  # noqa: BLE001
+        ctx.observations["earlier-session-raised:" + type(ex).__name__] += 1
+    ctx.probe("earlier-session")
 
 
 PRE_OPS = ["compute_stats", "compute_stats_basic", "collapse", "bandpass", "read_block"]
@@ -235,6 +271,8 @@ def execute(sc, ctx) -> None:
     bounds = list(np.cumsum(spec["nsamps"]))[:-1]
 
     with SimDisk(ctx, sc["faults"]) as sim:
+        if sc.get("earlier"):
+            run_earlier_session(sc, ctx, sim)
         reader = open_reader("C06", fs.paths)
         delays = None
         if name == "dedisperse":
